@@ -188,3 +188,209 @@ Proof. unfold dispatch, deadb. intros ->. destruct (a_parent x); reflexivity. Qe
 
 Lemma deadb_false x e : deadb x e = false -> a_state x <> Killed \/ a_zombie x = true.
 Proof. unfold deadb. destruct (a_state x), (a_zombie x); cbn; intros H; try discriminate; auto; left; discriminate. Qed.
+
+(* ------------------------------------------------------------------ one atomic instruction of the context's own handler *)
+
+Lemma nosrc_cleanup_sends a x : nosrc (cleanup_sends a x) = true.
+Proof. unfold cleanup_sends. destruct (a_watchers x), (a_parent x); reflexivity. Qed.
+
+Lemma must_reg_of_src x : uinv x -> nosrc (a_pend x) = false -> must_reg x.
+Proof. intros [_ [H|H]] Hn; [exact H|congruence]. Qed.
+
+(** lifecycle head [i]: nothing behind it can lead to user code, the context must be registered, and of the four
+    reasons only "not Killed" and "unreleased zombie" are possible *)
+Lemma life_head x i rest :
+  a_pend x = i :: rest -> life i = true -> i <> ICleanup -> i <> IRestartFinish -> uinv x ->
+  nosrc rest = true /\ (a_state x <> Killed \/ (a_zombie x = true /\ uzc rest = 0)).
+Proof.
+  intros Hp Hl Hc Hr [A B]. rewrite Hp in A, B. pose proof (al_cons_life _ _ A Hl) as Hn. split; [exact Hn|].
+  destruct B as [B|B]; [|rewrite nosrc_cons, (life_src _ Hl) in B; discriminate B].
+  unfold must_reg in B. rewrite Hp in B. rewrite (lf_cons_life _ _ Hl), (nosrc_lf _ Hn) in B.
+  destruct B as [B|[B|[B|[B1 B2]]]]; [left; exact B| | |right].
+  - destruct B as [B|[]]. congruence.
+  - destruct B as [B|[]]. congruence.
+  - split; [exact B1|]. rewrite uzc_cons_plain in B2; [exact B2|]. destruct i; try discriminate Hl; reflexivity.
+Qed.
+
+Lemma mk_uinv_life y pend :
+  al pend = true ->
+  (a_state y <> Killed \/ In ICleanup (lf pend) \/ In IRestartFinish (lf pend) \/ (a_zombie y = true /\ uzc pend = 0)) ->
+  uinv (upd_pend y pend).
+Proof. intros A B. split; [exact A|]. left. exact B. Qed.
+
+Lemma uinv_astep_TA s a x i rest :
+  get s a = Some x -> a_pend x = i :: rest -> yielding i = false -> is_enq i = false -> linv x -> uinv x ->
+  exists x', get (astep s (TA a) i rest) a = Some x' /\ uinv x'.
+Proof.
+  intros Hg Hp Hy Hq HL HU.
+  assert (Hl : a < length (actors s)) by (eapply nth_error_lt; exact Hg).
+  assert (Hset : forall y l, get (set_actor s a (upd_pend y l)) a = Some (upd_pend y l)) by (intros; apply get_set_same; exact Hl).
+  destruct (plain i) eqn:Hpl.
+  - (* neither a lifecycle instruction nor IUnzombie *)
+    destruct (astep_TA_get s a x i rest Hg Hp) as (y & Hy1 & Hpy & E). cbv zeta in *.
+    set (s0 := set_actor s a (upd_pend x rest)) in *.
+    assert (Hg0 : get s0 (self_of (TA a)) = Some (upd_pend x rest)) by (apply get_set_same; exact Hl).
+    destruct (exec1_plain_lc s0 (TA a) [] i _ Hg0 Hpl) as (y' & Hy' & Hs & Hz & _). cbn [self_of] in Hy'.
+    assert (y' = y) by congruence; subst y'.
+    destruct (exec1_front_plain s0 (TA a) [] i Hpl) as [Hf Hu].
+    rewrite E. eexists. split; [apply (get_set_same' _ _ _ _ Hy1)|].
+    eapply (uinv_plain_head x _ i _ rest Hp Hpl Hf Hu); [intros Hi; apply exec1_front_nosrc; exact Hi|exact Hs|exact Hz|reflexivity|exact HU].
+  - unfold plain in Hpl. destruct (is_unzombie i) eqn:Hun.
+    + (* IUnzombie *)
+      destruct i; try discriminate Hun. rewrite (astep_unzombie s a x rest Hg). eexists. split; [apply Hset|].
+      destruct HU as [A B]. rewrite Hp in A, B. split; [cbn [upd_pend a_pend]; eapply al_tail; exact A|].
+      cbn [upd_pend a_pend]. destruct B as [B|B]; [left|right; rewrite nosrc_cons in B; apply andb_true_iff in B; apply B].
+      unfold must_reg in *. rewrite Hp in B. cbn [upd_pend set_zombie upd_local a_state a_zombie a_pend].
+      rewrite (lf_cons_plain IUnzombie rest eq_refl) in B. destruct B as [B|[B|[B|[_ B]]]]; auto. discriminate B.
+    + assert (Hlife : life i = true) by (destruct (life i); [reflexivity|discriminate Hpl]). clear Hpl.
+      destruct i; try discriminate Hlife.
+      * (* IDoKill *)
+        destruct (life_head x _ rest Hp eq_refl ltac:(discriminate) ltac:(discriminate) HU) as [Hn Hm].
+        rewrite (astep_dokill s a x rest Hg). eexists. split; [apply Hset|].
+        apply mk_uinv_life.
+        -- apply al_app_front; [|exact Hn]. destruct (a_children x); reflexivity.
+        -- destruct Hm as [Hm|[Hm1 Hm2]]; [left; exact Hm|right; right; right]. split; [exact Hm1|].
+           rewrite uzc_app, Hm2. destruct (a_children x); reflexivity.
+      * (* IOnKilled *)
+        destruct (life_head x _ rest Hp eq_refl ltac:(discriminate) ltac:(discriminate) HU) as [Hn Hm].
+        destruct (a_zombie x) eqn:Hz.
+        -- rewrite (astep_onkilled_zombie s a x rest Hg who Hz). eexists. split; [apply Hset|].
+           apply mk_uinv_life; [|right; left; left; reflexivity].
+           apply al_app_front; [|exact Hn]. reflexivity.
+        -- destruct Hm as [Hm|[Hm _]]; [|discriminate Hm].
+           destruct (ref_eq (set_actor s a (upd_pend x rest)) who (RObj a)) eqn:Hre.
+           ++ rewrite (astep_onkilled_self s a x rest Hg who Hz Hre). eexists. split; [apply Hset|].
+              apply mk_uinv_life; [|left; exact Hm]. apply al_app_front; [reflexivity|exact Hn].
+           ++ rewrite (astep_onkilled_other s a x rest Hg who Hz Hre). eexists. split; [apply Hset|].
+              apply mk_uinv_life; [|left; exact Hm]. apply al_app_front; [reflexivity|exact Hn].
+      * (* ICheckMark *)
+        destruct (life_head x _ rest Hp eq_refl ltac:(discriminate) ltac:(discriminate) HU) as [Hn Hm].
+        destruct (a_children x) as [|c cs] eqn:Hch.
+        -- destruct (a_state x) eqn:Hst.
+           ++ rewrite (astep_checkmark_idle s a x rest Hg) by (right; congruence). eexists. split; [apply Hset|].
+              split; [apply nosrc_al; exact Hn|right; exact Hn].
+           ++ rewrite (astep_checkmark_kill s a x rest Hg Hch Hst). eexists. split; [apply Hset|].
+              apply mk_uinv_life.
+              ** apply al_app_front; [|exact Hn]. destruct (a_restarting x); reflexivity.
+              ** destruct (a_restarting x); [right; right; left|right; left]; rewrite lf_app; apply in_or_app; left; left; reflexivity.
+           ++ rewrite (astep_checkmark_idle s a x rest Hg) by (right; congruence). eexists. split; [apply Hset|].
+              split; [apply nosrc_al; exact Hn|right; exact Hn].
+        -- rewrite (astep_checkmark_idle s a x rest Hg) by (left; congruence). eexists. split; [apply Hset|].
+           split; [apply nosrc_al; exact Hn|right; exact Hn].
+      * (* ICleanup *)
+        destruct HU as [A _]. rewrite Hp in A. pose proof (al_cons_life _ _ A eq_refl) as Hn.
+        rewrite (astep_cleanup s a x rest Hg). eexists. split; [apply get_set_same; cbn; exact Hl|].
+        assert (Hns : nosrc ((cleanup_sends a x ++ [IPub evKilled (actor_key x); IResume1]) ++ rest) = true)
+          by (rewrite !nosrc_app, nosrc_cleanup_sends, Hn; reflexivity).
+        split; [apply nosrc_al; exact Hns|right; exact Hns].
+      * (* IRestartFinish *)
+        destruct HU as [A _]. rewrite Hp in A. pose proof (al_cons_life _ _ A eq_refl) as Hn.
+        destruct (restart_ok x) eqn:Hok.
+        -- rewrite (astep_restart_ok s a x rest Hg Hok). eexists. split; [apply Hset|].
+           apply mk_uinv_life; [|left; discriminate].
+           rewrite al_app_nolife by reflexivity. apply nosrc_al. exact Hn.
+        -- rewrite (astep_restart_fail s a x rest Hg Hok). eexists. split; [apply Hset|].
+           apply mk_uinv_life; [|right; right; right].
+           ++ rewrite al_app_nolife by reflexivity. apply nosrc_al. exact Hn.
+           ++ split; [unfold zombied; destruct (sp_provider (a_spec x)); reflexivity|].
+              destruct HL as (_ & _ & _ & _ & L5). unfold life_ok in L5. rewrite Hp in L5.
+              rewrite (lf_cons_life IRestartFinish rest eq_refl), (nosrc_lf _ Hn) in L5. destruct L5 as (_ & _ & L5).
+              rewrite uzc_app. rewrite (uzc_cons_plain IRestartFinish rest eq_refl) in L5. rewrite L5. reflexivity.
+Qed.
+
+(* ------------------------------------------------------------------ every micro-step *)
+
+Theorem UI_mstep s m : wf s -> LI s -> UI s -> UI (mstep s m).
+Proof.
+  intros W I U b x' Hg'.
+  destruct (get s b) as [x|] eqn:Hg; [|apply uinv_new; eapply mstep_new; eauto].
+  destruct (mstep_cases2 s m) as [Hq|[(t & i & rest & pre & s1 & Hp & Hpl & Hf & Hu & Hq & _ & E & Hn)|[(a & xa & e & -> & Hga & Hc)|(t & i & rest & -> & Hp & Hy & Hq & E)]]].
+  - (* only queues, caches, flags, consumer positions *)
+    destruct Hq as (_ & _ & _ & Hs & _). destruct (softT_get _ _ _ _ Hs Hg) as (y & Hy & Hsoft).
+    assert (y = x') by congruence; subst. eapply uinv_soft; [exact Hsoft|apply (U _ _ Hg)].
+  - (* a yielding head / a tell being resolved *)
+    rewrite E in Hg'. destruct Hq as (_ & _ & _ & Hs & _). destruct (softT_get _ _ _ _ Hs Hg) as (y1 & Hg1 & Hsoft).
+    destruct t as [a|j].
+    + destruct (Nat.eq_dec a b) as [->|Hne].
+      * destruct (pend_of_TA_cons _ _ _ _ Hp) as (x0 & Hg0 & Hpx). assert (x0 = x) by congruence; subst x0.
+        rewrite (set_pend_TA _ _ _ _ Hg1), (get_set_same' _ _ _ _ Hg1) in Hg'. inversion Hg'; subst x'.
+        destruct Hsoft as (A & B & _).
+        eapply (uinv_plain_head x _ i pre rest Hpx Hpl Hf Hu (fun _ => Hn)); [exact A|exact B|reflexivity|apply (U _ _ Hg)].
+      * assert (E2 : get (set_pend s1 (TA a) (pre ++ rest)) b = get s1 b).
+        { cbn [set_pend]. unfold with_actor. destruct (get s1 a); [apply get_set_other; exact Hne|reflexivity]. }
+        rewrite E2 in Hg'. assert (x' = y1) by congruence; subst. eapply uinv_soft; [exact Hsoft|apply (U _ _ Hg)].
+    + assert (E2 : get (set_pend s1 (TX j) (pre ++ rest)) b = get s1 b) by (unfold get; rewrite set_pend_TX_actors; reflexivity).
+      rewrite E2 in Hg'. assert (x' = y1) by congruence; subst. eapply uinv_soft; [exact Hsoft|apply (U _ _ Hg)].
+  - (* HandleEnvelop *)
+    cbn [mstep] in Hg'. rewrite Hga, Hc in Hg'.
+    assert (Hl : a < length (actors s)) by (eapply nth_error_lt; exact Hga).
+    set (s0 := set_actor s a (busy xa)) in *.
+    assert (Hg0 : get s0 a = Some (busy xa)) by (apply get_set_same; exact Hl).
+    pose proof (I _ _ Hga) as (L1 & _).
+    destruct (dispatch_life s0 a (busy xa) e Hg0 L1) as (y & Hy & Hz & _ & _ & Hst & Hu & _).
+    destruct (dispatch_effect s0 a (busy xa) e Hg0) as (y2 & _ & Ha & _).
+    pose proof (dispatch_al s0 a (busy xa) e) as Hal.
+    pose proof (dispatch_dead_nosrc s0 a (busy xa) e) as Hdn.
+    destruct (dispatch s0 a (busy xa) e) as [s1 ins]. cbn [fst snd] in *.
+    rewrite (set_pend_TA _ _ _ _ Hy) in Hg'.
+    destruct (Nat.eq_dec a b) as [->|Hne].
+    + rewrite (get_set_same' _ _ _ _ Hy) in Hg'. inversion Hg'; subst x'. clear Hg'.
+      split; [exact Hal|]. cbn [upd_pend a_pend].
+      destruct (deadb (busy xa) e) eqn:Hd; [right; apply Hdn; reflexivity|left].
+      unfold must_reg. cbn [upd_pend a_state a_zombie a_pend].
+      destruct (deadb_false _ _ Hd) as [Hk|Hzo]; cbn [busy set_mb a_state a_zombie] in *.
+      * left. destruct Hst as [->|[_ ->]]; [exact Hk|discriminate].
+      * right; right; right. split; [congruence|exact Hu].
+    + rewrite get_set_other in Hg' by exact Hne.
+      assert (E : get s1 b = get s b).
+      { unfold get. rewrite Ha. unfold s0. cbn [set_actor actors]. rewrite upd_upd. apply nth_upd_neq. exact Hne. }
+      rewrite E, Hg in Hg'. inversion Hg'; subst. apply (U _ _ Hg).
+  - (* one atomic instruction *)
+    rewrite E in Hg'. destruct (Nat.eq_dec b (self_of t)) as [->|Hne].
+    + destruct t as [a|j]; cbn [self_of] in *.
+      * destruct (pend_of_TA_cons _ _ _ _ Hp) as (x0 & Hg0 & Hpx). rewrite Hg in Hg0. inversion Hg0; subst x0.
+        destruct (uinv_astep_TA s a x i rest Hg Hpx Hy Hq (I _ _ Hg) (U _ _ Hg)) as (x'' & Hx'' & Hu). congruence.
+      * (* an external caller runs as the guard: API-level instructions leave state, zombie flag and the guard's list alone *)
+        destruct (pend_of_TX_cons _ _ _ _ Hp) as (ex & Hn & Hpx).
+        destruct W as [_ HX]. pose proof (Forall_nth _ _ _ _ HX Hn) as Hok. cbv beta in Hok. rewrite Hpx in Hok. cbn [forallb] in Hok.
+        apply andb_true_iff in Hok. destruct Hok as [Hi _]. apply ext_instr_plain in Hi.
+        unfold astep in Hg'. set (s0 := set_pend s (TX j) rest) in *.
+        assert (Hg0 : get s0 (self_of (TX j)) = Some x) by (unfold get, s0; rewrite set_pend_TX_actors; exact Hg).
+        destruct (exec1_plain_lc s0 (TX j) (held_of s0 (TX j)) i x Hg0 Hi) as (y & Hy' & Hs & Hz & _).
+        destruct (exec1_actors s0 (TX j) (held_of s0 (TX j)) i x Hg0) as (y2 & news & Hy2 & _ & Ha).
+        destruct (exec1 s0 (TX j) (held_of s0 (TX j)) i) as [s1 front]. cbn [fst snd self_of] in *.
+        assert (E2 : get (set_pend s1 (TX j) (front ++ pend_of s1 (TX j))) 0 = get s1 0) by (unfold get; rewrite set_pend_TX_actors; reflexivity).
+        rewrite E2, Hy' in Hg'. inversion Hg'; subst x'.
+        assert (Hy2' : y2 = y).
+        { unfold get in Hy'. rewrite Ha in Hy'. rewrite nth_error_app1 in Hy' by (rewrite upd_length; eapply nth_error_lt; exact Hg0).
+          rewrite nth_upd_eq in Hy' by (eapply nth_error_lt; exact Hg0). congruence. }
+        subst y2. eapply uinv_fields; [exact Hs|exact Hz|exact (lu_pend _ _ _ Hy2)|apply (U _ _ Hg)].
+    + destruct (foreign_astep s t i rest b x Hg Hne) as (y & Hy' & Hls). assert (x' = y) by congruence; subst.
+      rewrite Hls. apply (uinv_fields x); try reflexivity. apply (U _ _ Hg).
+Qed.
+
+Lemma UI_init scs : UI (init_with scs).
+Proof.
+  intros a x Hg. unfold get in Hg. unfold init_with in Hg.
+  assert (H : forall scs s i, actors (set_exts s i scs) = actors s).
+  { clear. induction scs as [|sc r IH]; intros s i; cbn [set_exts]; [reflexivity|]. rewrite IH. apply set_pend_TX_actors. }
+  rewrite H in Hg. cbn in Hg. destruct a as [|a]; cbn in Hg; [inversion Hg; subst|destruct a; discriminate].
+  apply uinv_new. do 4 eexists. reflexivity.
+Qed.
+
+(** the basis used below: well-formed lists, lifecycle invariant, registry invariant, user code only where registered *)
+Definition Base (s : state) : Prop := wf s /\ LI s /\ RInv s /\ UI s.
+Lemma Base_init scs : Base (init_with scs).
+Proof. split; [apply wf_init|split; [apply LI_init|split; [apply RInv_init|apply UI_init]]]. Qed.
+Lemma Base_mstep s m : Base s -> Base (mstep s m).
+Proof.
+  intros (W & I & R & U). split; [apply wf_mstep; exact W|split; [apply LI_mstep; assumption|split; [apply RInv_mstep; assumption|apply UI_mstep; assumption]]].
+Qed.
+
+(** a context whose handler is about to run a user action is registered *)
+Lemma user_action_registered s a x act rest :
+  Base s -> get s a = Some x -> a <> 0 -> a_pend x = IAct act :: rest -> alookup (reg s) (a_path x) = Some a.
+Proof.
+  intros (_ & _ & (_ & _ & _ & R1 & _) & U) Hg Hne Hp. apply (R1 a x Hg Hne).
+  apply must_reg_of_src; [apply (U _ _ Hg)|]. rewrite Hp. reflexivity.
+Qed.
